@@ -12,8 +12,11 @@ import HL.Model.ParserNum
     parseTransaction                -> parseTransaction (postings loop: postingsF)
     parseDate parseStatus           -> parseDate parseStatus
     parsePosting parseAmount parseCost parseBalanceAssertion -> same names
-        (parsePosting is cut into postingOpen / postingTail, parseTransaction's header line into
-         txHeader / txDescription: same statements in the same order, smaller definitions)
+        (the longer functions are cut into consecutive pieces — parsePosting: postingOpen,
+         postingTail; parseTransaction: txHeader = txDate2, txStatus, txCode, txDescription,
+         txComment; parseAmount: amountLeadSign, amountLeftCommodity, amountSecondSign,
+         amountNumber, amountRightCommodity; parseAccountDirective: accountNameRest, lineComment;
+         parseCommodityDirective: commodityInline — same statements in the same order)
     parseDirective + six directive parsers -> same names
     parseSubdirectives              -> parseSubdirectivesF (value loop: subValueF)
     parseComment parseTags isValidTagName -> same names
@@ -245,22 +248,33 @@ def isValidCommodityText (value : Bytes) : Bool :=
 
 def emptyCommodity : Commodity := ⟨[], .left, Rng.zero⟩
 
-/-- `parseAmount`. -/
-def parseAmount (st : PState σ) : Option Amount × PState σ :=
-  let start := st.current.pos
-  -- leading sign
-  let (sign, signBefore, st) : Bytes × Bool × PState σ :=
-    if st.current.ty = .sign then (st.current.val, true, advance E st) else ([], false, st)
-  -- left commodity
-  let (com, sbc, st) : Commodity × Bool × PState σ :=
-    if st.current.ty = .commodity then
-      (⟨st.current.val, .left, toRange st.current.pos st.current.stop⟩,
-       signBefore && (sign = [0x2D] || sign = [0x2B]), advance E st)
-    else (emptyCommodity, false, st)
-  -- sign after the commodity
-  let (sign, st) : Bytes × PState σ :=
-    if st.current.ty = .sign then ((if sign = [] then st.current.val else sign), advance E st)
-    else (sign, st)
+/-- `parseAmount`, lines 313-317: a sign in front of everything: `(sign, signBeforeCommodity)`. -/
+def amountLeadSign (st : PState σ) : (Bytes × Bool) × PState σ :=
+  if st.current.ty = .sign then ((st.current.val, true), advance E st) else (([], false), st)
+
+/-- `parseAmount`, lines 319-332: a commodity on the left: `(commodity, SignBeforeCommodity)`. -/
+def amountLeftCommodity (sign : Bytes) (signBefore : Bool) (st : PState σ) : (Commodity × Bool) × PState σ :=
+  if st.current.ty = .commodity then
+    ((⟨st.current.val, .left, toRange st.current.pos st.current.stop⟩,
+      signBefore && (sign = [0x2D] || sign = [0x2B])), advance E st)
+  else ((emptyCommodity, false), st)
+
+/-- `parseAmount`, lines 334-339: a sign after the left commodity (kept only if there was none). -/
+def amountSecondSign (sign : Bytes) (st : PState σ) : Bytes × PState σ :=
+  if st.current.ty = .sign then ((if sign = [] then st.current.val else sign), advance E st)
+  else (sign, st)
+
+/-- `parseAmount`, lines 364-378: a commodity on the right, when there was none on the left. -/
+def amountRightCommodity (com : Commodity) (st : PState σ) : Commodity × PState σ :=
+  if com.symbol = [] then
+    if st.current.ty = .commodity ∨ (st.current.ty = .text ∧ isValidCommodityText E st.current.val) then
+      (⟨st.current.val, .right, toRange st.current.pos st.current.stop⟩, advance E st)
+    else (com, st)
+  else (com, st)
+
+/-- `parseAmount`, lines 341-381: the number, and what follows it. -/
+def amountNumber (start : Pos) (sign : Bytes) (com : Commodity) (sbc : Bool) (st : PState σ) :
+    Option Amount × PState σ :=
   if st.current.ty ≠ .number then (none, error st mExpectedNumber) else
   let raw := if sign = [0x2D] ∧ !([0x2D] : Bytes).isPrefixOf st.current.val then 0x2D :: st.current.val
              else st.current.val
@@ -270,14 +284,16 @@ def parseAmount (st : PState σ) : Option Amount × PState σ :=
   | some qty =>
     if qty.exp > maxAmountExponent ∨ qty.exp < -maxAmountExponent then
       (none, error st (mExponentRange ++ st.current.val)) else
-    let st := advance E st
-    let (com, st) : Commodity × PState σ :=
-      if com.symbol = [] then
-        if st.current.ty = .commodity ∨ (st.current.ty = .text ∧ isValidCommodityText E st.current.val) then
-          (⟨st.current.val, .right, toRange st.current.pos st.current.stop⟩, advance E st)
-        else (com, st)
-      else (com, st)
+    let (com, st) := amountRightCommodity E com (advance E st)
     (some ⟨qty, raw, com, sbc, toRange start st.current.pos⟩, st)
+
+/-- `parseAmount`. -/
+def parseAmount (st : PState σ) : Option Amount × PState σ :=
+  let start := st.current.pos
+  let ((sign, signBefore), st) := amountLeadSign E st
+  let ((com, sbc), st) := amountLeftCommodity E sign signBefore st
+  let (sign, st) := amountSecondSign E sign st
+  amountNumber E start sign com sbc st
 
 /-- `parseCost`. -/
 def parseCost (st : PState σ) : Option Cost × PState σ :=
@@ -362,22 +378,31 @@ def txDescription (st : PState σ) : (Bytes × Bytes × Bytes) × PState σ :=
     else ((desc, [], []), st)
   else (([], [], []), st)
 
+/-- `parseTransaction`, lines 88-94: `=` and a secondary date. -/
+def txDate2 (st : PState σ) : Option Date × PState σ :=
+  if st.current.ty = .equals then parseDate E (advance E st) else (none, st)
+
+/-- `parseTransaction`, lines 96-98. -/
+def txStatus (st : PState σ) : Status × PState σ :=
+  if st.current.ty = .status then parseStatus E st else (.none, st)
+
+/-- `parseTransaction`, lines 100-103. -/
+def txCode (st : PState σ) : Bytes × PState σ :=
+  if st.current.ty = .code then (st.current.val, advance E st) else ([], st)
+
+/-- `parseTransaction`, lines 125-127: the header-line comment. -/
+def txComment (st : PState σ) : List Comment × PState σ :=
+  if st.current.ty = .comment then ([(parseComment E st).1], (parseComment E st).2) else ([], st)
+
 /-- `parseTransaction`, lines 88-131: the rest of the header line after the first date, up to
     and including its Newline: `(date2, status, code, (description, payee, note), comments)`. -/
 def txHeader (st : PState σ) :
     (Option Date × Status × Bytes × (Bytes × Bytes × Bytes) × List Comment) × PState σ :=
-  let (date2, st) : Option Date × PState σ :=
-    if st.current.ty = .equals then parseDate E (advance E st) else (none, st)
-  let (status, st) : Status × PState σ :=
-    if st.current.ty = .status then parseStatus E st else (.none, st)
-  let (code, st) : Bytes × PState σ :=
-    if st.current.ty = .code then (st.current.val, advance E st) else ([], st)
+  let (date2, st) := txDate2 E st
+  let (status, st) := txStatus E st
+  let (code, st) := txCode E st
   let (descr, st) := txDescription E st
-  let (comments, st) : List Comment × PState σ :=
-    if st.current.ty = .comment then
-      let (c, st) := parseComment E st
-      ([c], st)
-    else ([], st)
+  let (comments, st) := txComment E st
   let st := if st.current.ty = .newline then advance E st else st
   ((date2, status, code, descr, comments), st)
 
@@ -445,19 +470,23 @@ def skipUntilF (stopAtComment : Bool) : Nat → PState σ → PState σ
     if isLineEnd st.current ∨ (stopAtComment ∧ st.current.ty = .comment) then st
     else skipUntilF stopAtComment n (advance E st)
 
+/-- `parseAccountDirective`, lines 455-458: a second token of the account name. -/
+def accountNameRest (name : Bytes) (st : PState σ) : Bytes × PState σ :=
+  if st.current.ty = .text then (name ++ [0x20] ++ st.current.val, advance E st) else (name, st)
+
+/-- A comment at the end of a directive or posting line: `(comment, tags)`. -/
+def lineComment (st : PState σ) : (Bytes × List Tag) × PState σ :=
+  if st.current.ty = .comment then
+    ((st.current.val, parseTags st.current.val st.current.pos), advance E st)
+  else (([], []), st)
+
 /-- `parseAccountDirective`. -/
 def parseAccountDirective (startPos : Pos) (st : PState σ) : Option Directive × PState σ :=
   if st.current.ty ≠ .account ∧ st.current.ty ≠ .text then
     (none, skipToNextLine E (error st mExpectedAccount)) else
-  let name := st.current.val
   let accountPos := st.current.pos
-  let st := advance E st
-  let (name, st) : Bytes × PState σ :=
-    if st.current.ty = .text then (name ++ [0x20] ++ st.current.val, advance E st) else (name, st)
-  let (comment, tags, st) : Bytes × List Tag × PState σ :=
-    if st.current.ty = .comment then
-      (st.current.val, parseTags st.current.val st.current.pos, advance E st)
-    else ([], [], st)
+  let (name, st) := accountNameRest E st.current.val (advance E st)
+  let ((comment, tags), st) := lineComment E st
   let st := skipUntilF E false (fuelOf E st) st
   let (subs, st) := parseSubdirectives E st
   (some (.account ⟨name, toRange accountPos Pos.zero⟩ tags comment subs (toRange startPos st.current.pos)), st)
